@@ -157,7 +157,8 @@ class Run(Stats):
             status = e.get("status", "open")
             self.want_sig = sig      # a case may fail in several ways: replay() may use this to pick the listed one
             try:
-                r = mod.replay(self, e["example"])
+                with quiet():
+                    r = mod.replay(self, e["example"])
             except Inconclusive:
                 raise
             if status == "open":
@@ -203,6 +204,7 @@ class Run(Stats):
 
     def record(self, sig, detail, case):
         sig = norm_sig(sig)
+        detail = " ".join(str(detail).split())
         if sig in self.seen:
             return
         self.seen.add(sig)
